@@ -280,7 +280,134 @@ theorem partialWsumFrom_one (i : Nat) (h : List Nat) :
 /-- with `l_min = 1` numerator and denominator coincide (DET = LAM = 1 on a non-empty plot). -/
 theorem partialWsum_one (h : List Nat) : partialWsum 1 h = wsum h := partialWsumFrom_one 0 h
 
+theorem partialCountFrom_mul_le (i lmin : Nat) (h : List Nat) :
+    lmin * partialCountFrom i lmin h ≤ partialWsumFrom i lmin h := by
+  induction h generalizing i with
+  | nil => simp [partialWsumFrom, partialCountFrom]
+  | cons a t ih =>
+    simp only [partialWsumFrom, partialCountFrom]
+    have := ih (i + 1)
+    split
+    · rename_i hge
+      have : lmin * a ≤ (i + 1) * a := Nat.mul_le_mul_right a hge
+      rw [Nat.mul_add]; omega
+    · simpa using this
+
+/-- average line lengths (L, TT, mean recurrence time) are at least `l_min`:
+`l_min · #lines ≤ Σ l·P(l)` over the lines of length `≥ l_min`. -/
+theorem avg_ge_lmin (lmin : Nat) (h : List Nat) :
+    lmin * partialCount lmin h ≤ partialWsum lmin h := partialCountFrom_mul_le 0 lmin h
+
+theorem partialWsumFrom_antitone (i a b : Nat) (hab : a ≤ b) (h : List Nat) :
+    partialWsumFrom i b h ≤ partialWsumFrom i a h := by
+  induction h generalizing i with
+  | nil => simp [partialWsumFrom]
+  | cons x t ih =>
+    simp only [partialWsumFrom]
+    have := ih (i + 1)
+    split <;> split <;> omega
+
+/-- raising `l_min` can only lower DET / LAM. -/
+theorem partialWsum_antitone (a b : Nat) (hab : a ≤ b) (h : List Nat) :
+    partialWsum b h ≤ partialWsum a h := partialWsumFrom_antitone 0 a b hab h
+
+theorem maxLenFrom_spec (i : Nat) (h : List Nat) :
+    (maxLenFrom i h = 0 ∧ ∀ x ∈ h, x = 0) ∨
+    (∃ k, k < h.length ∧ maxLenFrom i h = i + k + 1 ∧ h[k]? ≠ some 0 ∧
+      ∀ j, k < j → j < h.length → h[j]? = some 0) := by
+  induction h generalizing i with
+  | nil => left; simp [maxLenFrom]
+  | cons a t ih =>
+    simp only [maxLenFrom]
+    rcases ih (i + 1) with ⟨h0, hall⟩ | ⟨k, hk, hm, hne, hz⟩
+    · rw [h0]
+      by_cases ha : a = 0
+      · left; subst ha; simp; exact hall
+      · right
+        refine ⟨0, by simp, by simp [ha], by simp [ha], ?_⟩
+        intro j hj hjl
+        cases j with
+        | zero => omega
+        | succ j =>
+          simp only [List.length_cons] at hjl
+          have hjt : j < t.length := by omega
+          simp only [List.getElem?_cons_succ]
+          rw [List.getElem?_eq_getElem hjt, hall _ (List.getElem_mem hjt)]
+    · right
+      refine ⟨k + 1, by simp; omega, ?_, by simpa using hne, ?_⟩
+      · rw [hm]; simp; omega
+      · intro j hj hjl
+        cases j with
+        | zero => omega
+        | succ j =>
+          simp only [List.length_cons] at hjl
+          simpa using hz j (by omega) (by omega)
+
+/-- `max_*length`: `0` on an all-zero histogram, otherwise the position (1-based length) of the
+last non-zero entry. -/
+theorem maxLen_spec (h : List Nat) :
+    (maxLen h = 0 ∧ ∀ x ∈ h, x = 0) ∨
+    (∃ k, k < h.length ∧ maxLen h = k + 1 ∧ h[k]? ≠ some 0 ∧
+      ∀ j, k < j → j < h.length → h[j]? = some 0) := by
+  have := maxLenFrom_spec 0 h
+  simpa [maxLen] using this
+
+theorem entropyWeightsFrom_sum (i lmin : Nat) (h : List Nat) :
+    (entropyWeightsFrom i lmin h).sum = partialCountFrom i lmin h := by
+  induction h generalizing i with
+  | nil => simp [entropyWeightsFrom, partialCountFrom]
+  | cons a t ih =>
+    simp only [entropyWeightsFrom, partialCountFrom]
+    split
+    · rename_i hc; simp [ih, hc.1]
+    · rename_i hc
+      rw [ih]
+      by_cases hge : i + 1 ≥ lmin
+      · have ha : a = 0 := Decidable.byContradiction fun hne => hc ⟨hge, hne⟩
+        rw [if_pos hge, ha]; omega
+      · rw [if_neg hge]; omega
+
+/-- the line-length probabilities of the entropies are a distribution over the lines of
+length `≥ l_min`: positive weights whose total is the number of such lines. -/
+theorem entropyWeights_sum (lmin : Nat) (h : List Nat) :
+    (entropyWeights lmin h).sum = partialCount lmin h := entropyWeightsFrom_sum 0 lmin h
+
+theorem entropyWeightsFrom_pos (i lmin : Nat) (h : List Nat) :
+    ∀ x ∈ entropyWeightsFrom i lmin h, 0 < x := by
+  induction h generalizing i with
+  | nil => simp [entropyWeightsFrom]
+  | cons a t ih =>
+    simp only [entropyWeightsFrom]
+    split
+    · rename_i hc
+      intro x hx
+      rcases List.mem_cons.mp hx with rfl | hx
+      · exact Nat.pos_of_ne_zero hc.2
+      · exact ih _ x hx
+    · exact ih _
+
+theorem entropyWeights_pos (lmin : Nat) (h : List Nat) :
+    ∀ x ∈ entropyWeights lmin h, 0 < x := entropyWeightsFrom_pos 0 lmin h
+
+/-- DET on the matrix: its numerator counts at most the recurrence points below the main
+diagonal, its denominator exactly those. -/
+theorem det_bounds (R : Mat) (n lmin : Nat) :
+    (scalars lmin (diagline R n)).ratioNum ≤ (scalars lmin (diagline R n)).ratioDen ∧
+    (scalars lmin (diagline R n)).ratioDen = countIn (diagsOf R n) := by
+  simp only [scalars, partialWsum_one]
+  exact ⟨partialWsum_le_wsum _ _, diag_accounts_black R n⟩
+
+/-- LAM on the matrix: denominator = number of recurrence points. -/
+theorem lam_bounds (R : Mat) (n vmin : Nat) :
+    (scalars vmin (vertline R n)).ratioNum ≤ (scalars vmin (vertline R n)).ratioDen ∧
+    (scalars vmin (vertline R n)).ratioDen = countIn (rowsOf R true n) := by
+  simp only [scalars, partialWsum_one]
+  exact ⟨partialWsum_le_wsum _ _, vert_accounts_black R n⟩
+
 /-! ### non-vacuity -/
+example : (scalars 2 [3, 2, 0, 1]).ratioNum = 8 ∧ (scalars 2 [3, 2, 0, 1]).ratioDen = 11 ∧
+    (scalars 2 [3, 2, 0, 1]).avgDen = 3 ∧ (scalars 2 [3, 2, 0, 1]).maxLen = 4 ∧
+    (scalars 2 [3, 2, 0, 1]).weights = [2, 1] := by decide
 example : vertline [[true, true, false], [true, true, true], [false, true, true]] 3 = [0, 2, 1] := by
   decide
 example : diagline [[true, true, false], [true, true, true], [false, true, true]] 3 = [0, 1, 0] := by
